@@ -123,6 +123,13 @@ def check_loop(ctx, rep, rule_neigh='S-neigh', rule_recompute='S-recompute'):
         left = brs.get('event.left')
         if left is None:
             # paths that leave the loop before looking at the event (queue empty / early break): no sweep-line calls
+            popped = any(k.startswith('has(event)') and is_true(v) for k, v in brs.items())
+            if p.end == 'backedge' and popped:
+                rep.ob(rule_neigh, 'every-popped-event-is-processed', False,
+                       'a path pops an event and goes on to the next one without inserting (left) or removing (right) its segment: the '
+                       'segment silently disappears from the sweep (conditions: %s)' % sorted(k for k in brs)[:6],
+                       loc=b.loc(tk[-1][3]) if tk else b.loc(b.j['line_lo']), reason='dominance')
+                continue
             ok = not calls
             rep.ob(rule_neigh, 'exit-path-has-no-sweepline-calls', ok,
                    'a path that leaves the loop calls %s' % [c[1] for c in calls], loc=b.loc(b.j['line_lo']), reason='dominance')
@@ -268,6 +275,14 @@ def check_break(ctx, rep, rule='B-break'):
                 opv[nm.split('==')[1]] = is_true(c)
             elif nm.startswith('gt('):
                 cmpv[bound_name(v, p)] = is_true(c)
+        # only the two documented bounds may be compared with the event before it is processed
+        allowed_bounds = {'min(sbbox.max.x,cbbox.max.x)', 'sbbox.max.x'}
+        for k_ in cmpv:
+            if k_ not in allowed_bounds:
+                rep.ob(rule, 'unexpected-early-test:%s' % k_[:60], False,
+                       'before an event is processed the sweep compares it with %s; only `event.x > min(sbbox.max.x, cbbox.max.x)` '
+                       '(Intersection) and `event.x > sbbox.max.x` (Difference) may stop or skip work' % k_,
+                       loc=b.loc(brs[-1][3]) if brs else None, reason='table-row')
         for op in ('Intersection', 'Difference', 'Union', 'Xor'):
             # is this path compatible with operation `op`?
             compat = all((k == op) == val for k, val in opv.items())
